@@ -84,10 +84,10 @@ func vfSext(v uint64, bits uint) uint64 { return uint64(int64(v<<(64-bits)) >> (
 
 func vfRef(name string, w uint32, x *[32]uint64, f *[32]uint64, pc uint64, mem uint64) vfStepOut {
 	rd, rj, rk := w&31, w>>5&31, w>>10&31
-	// r0 reads as zero (branch-free, so the executor does not fork on the register numbers)
-	a := x[rj] & -vfB2U(rj != 0)
-	b := x[rk] & -vfB2U(rk != 0)
-	d := x[rd] & -vfB2U(rd != 0)
+	// r0 reads as zero: read from a copy of the register file whose cell 0 is 0
+	xr := *x
+	xr[0] = 0
+	a, b, d := xr[rj], xr[rk], xr[rd]
 	ui5 := uint64(w >> 10 & 31)
 	si12 := vfSext(uint64(w>>10&0xfff), 12)
 	ui12 := uint64(w >> 10 & 0xfff)
